@@ -26,8 +26,10 @@ _BASE: set[str] = set()
 
 def _apply(prog: Program, edits) -> Program | None:
     srcs = dict(prog.sources)
-    for path, old, new in edits:
-        if path not in srcs or srcs[path].count(old) != 1:
+    for e in edits:
+        path, old, new = e[0], e[1], e[2]
+        many = len(e) > 3 and e[3]
+        if path not in srcs or (srcs[path].count(old) != 1 and not (many and srcs[path].count(old) > 1)):
             return None
         srcs[path] = srcs[path].replace(old, new)
     return Program(srcs)
@@ -36,7 +38,7 @@ def _apply(prog: Program, edits) -> Program | None:
 def _edits(m: dict):
     if 'edits' in m:
         return [tuple(e) for e in m['edits']]
-    return [(m['file'], m['old'], m['new'])]
+    return [(m['file'], m['old'], m['new'], m.get('replace_all', False))]
 
 
 def _run_one(i: int):
